@@ -40,6 +40,10 @@ type SignSpec struct {
 	PrefixList string `json:"prefixlist,omitempty"` // InclusiveNamespaces PrefixList (exclusive c14n only)
 	RefURI     string `json:"refuri,omitempty"`     // "" = "#"+ID; Absent = URI=""
 	Tamper     string `json:"tamper,omitempty"`     // after signing: "content", "sigvalue", "digest"
+	// Nested, when set, places the Signature inside a wrapper child of the signed element
+	// ("Extensions") instead of directly under it; the enveloped transform removes only the
+	// Signature, so the (then empty) wrapper is part of the signed content.
+	Nested string `json:"nested,omitempty"`
 }
 
 func (s SignSpec) Signed() bool { return s.Key != "" }
